@@ -417,7 +417,7 @@ deriving Repr, DecidableEq, Inhabited
 
 /-! ## the state of an object graph -/
 mutual
-def St : Shape → Type
+@[reducible] def St : Shape → Type
   | .sink _ => Sink
   | .tt _ => TT
   | .text _ => TextSt
@@ -428,7 +428,7 @@ def St : Shape → Type
   | .tfr c => TfrOwn × St c
   | .multi cs => TT × StL cs
   | .e2s c => E2S × St c
-def StL : List Shape → Type
+@[reducible] def StL : List Shape → Type
   | [] => Unit
   | c :: cs => St c × StL cs
 end
